@@ -6,6 +6,7 @@ import (
 	"fmt"
 	"io"
 	"math"
+	"math/rand"
 	"strings"
 
 	"github.com/kwertop/gostatix"
@@ -353,10 +354,12 @@ func persistCase(c *Ctx, o persistObj, second *persistObj) {
 	// read back, followed by a random tail
 	tail := randBytes(c.rng, c.rng.Intn(9))
 	stream := bytes.NewReader(append(append([]byte(nil), raw...), tail...))
+	rkind := c.rng.Intn(4)
+	c.branch("reader-" + readerKindName(rkind))
 	t := o.fresh()
 	var rn int64
 	var rerr error
-	res = safely(func() { rn, rerr = t.readFrom(stream) })
+	res = safely(func() { rn, rerr = t.readFrom(wrapReader(stream, rkind, c.rng.Int63())) })
 	c.op("ReadFrom." + o.kind)
 	if res.panicked || rerr != nil {
 		c.fail(append(props, "C18"), o.kind+"-readfrom-fails", fmt.Sprintf("%s: ReadFrom of a complete image failed: %v %v", o.kind, res.panicVal, rerr), replay)
@@ -392,10 +395,13 @@ func persistCase(c *Ctx, o persistObj, second *persistObj) {
 		r2 := safely(func() { n2, err2 = second.writeTo(&b2) })
 		if !r2.panicked && err2 == nil {
 			rd := bytes.NewReader(b2.Bytes())
+			// one stream object for both reads, of a random kind (a file or a socket is neither
+			// an io.ByteReader nor does it fill the buffer it is given)
+			shared := wrapReader(rd, c.rng.Intn(4), c.rng.Int63())
 			t1, t2 := o.fresh(), second.fresh()
 			var m1, m2 int64
 			var er1, er2 error
-			r3 := safely(func() { m1, er1 = t1.readFrom(rd); m2, er2 = t2.readFrom(rd) })
+			r3 := safely(func() { m1, er1 = t1.readFrom(shared); m2, er2 = t2.readFrom(shared) })
 			if r3.panicked || er1 != nil || er2 != nil || rd.Len() != 0 || m1 != n1 || m2 != n2 {
 				c.fail(props, o.kind+"+"+second.kind+"-back-to-back", fmt.Sprintf("%s then %s in one stream: read failed or misaligned (%v %v %v, %d left, counts %d/%d vs %d/%d)", o.kind, second.kind, r3.panicVal, er1, er2, rd.Len(), m1, m2, n1, n2), replay)
 			} else if t2.queries() != second.queries() {
@@ -413,7 +419,7 @@ func persistCase(c *Ctx, o persistObj, second *persistObj) {
 	for cut := 0; cut < len(raw); cut += step {
 		t := o.fresh()
 		var rerr error
-		res := safely(func() { _, rerr = t.readFrom(bytes.NewReader(raw[:cut])) })
+		res := safely(func() { _, rerr = t.readFrom(wrapReader(bytes.NewReader(raw[:cut]), cut%4, int64(cut))) })
 		c.rep.Ops["ReadFrom.prefix"]++
 		if res.panicked {
 			c.fail([]string{"C18"}, o.kind+"-prefix-panic", fmt.Sprintf("%s: ReadFrom panicked on the %d-byte prefix of a %d-byte image: %s", o.kind, cut, len(raw), res.panicVal), map[string]interface{}{"kind": o.kind, "image_hex": hexStr(raw), "cut": cut})
@@ -448,4 +454,47 @@ func persistCase(c *Ctx, o persistObj, second *persistObj) {
 		}
 	}
 	c.sample(map[string]interface{}{"kind": o.kind, "image_bytes": len(raw), "json_bytes": len(doc)})
+}
+
+// ---- stream kinds.  bytes.Reader is an io.ByteReader/io.Seeker that always fills the buffer; files,
+// sockets and pipes are neither: a reader may return fewer bytes than asked for without an error.
+
+type plainReader struct{ r io.Reader }
+
+func (p plainReader) Read(b []byte) (int, error) { return p.r.Read(b) }
+
+type chunkReader struct {
+	r   io.Reader
+	rng *rand.Rand
+	max int
+}
+
+func (p *chunkReader) Read(b []byte) (int, error) {
+	if len(b) == 0 {
+		return 0, nil
+	}
+	n := 1
+	if p.max > 1 {
+		n = 1 + p.rng.Intn(p.max)
+	}
+	if n > len(b) {
+		n = len(b)
+	}
+	return p.r.Read(b[:n])
+}
+
+func readerKindName(k int) string {
+	return [...]string{"bytes.Reader", "plain", "one-byte", "random-chunks"}[k%4]
+}
+
+func wrapReader(r io.Reader, kind int, seed int64) io.Reader {
+	switch kind % 4 {
+	case 1:
+		return plainReader{r}
+	case 2:
+		return &chunkReader{r: r, max: 1}
+	case 3:
+		return &chunkReader{r: r, rng: rand.New(rand.NewSource(seed)), max: 7}
+	}
+	return r
 }
